@@ -65,7 +65,95 @@ func lookupAtom(a *Term) (*Term, bool, bool) {
 			return l, pol, true
 		}
 	}
+	// the same lookup through the node: GetNode(key) != nil
+	if (a.Op == "!=" || a.Op == "==") && len(a.Args) == 2 {
+		for i := 0; i < 2; i++ {
+			if a.Args[i].String() == "#:nil" && a.Args[1-i].Op == "call" && (strings.HasSuffix(a.Args[1-i].Leaf, ").GetNode") || strings.HasSuffix(a.Args[1-i].Leaf, ").lookup")) && len(a.Args[1-i].Args) == 3 {
+				return a.Args[1-i], pol == (a.Op == "!="), true
+			}
+		}
+	}
 	return nil, false, false
+}
+
+// lookedUpValue: t is the value that lookup l found — the first result of Get, or the Value field of the node.
+func lookedUpValue(t, l *Term) bool {
+	if l == nil {
+		return false
+	}
+	if t.Op == "ext" && t.Leaf == "0" && len(t.Args) == 1 && noEpoch(t.Args[0]) == noEpoch(l) {
+		return true
+	}
+	return t.Op == "load" && len(t.Args) == 1 && t.Args[0].Op == "fa" && t.Args[0].Leaf == "Value" && len(t.Args[0].Args) == 1 && noEpoch(t.Args[0].Args[0]) == noEpoch(l)
+}
+
+// staleNodeReads: every read `node.Value` / `node.Key` of a node obtained by GetNode/lookup on tree field F must happen
+// before the path's first structural call (Put/Remove/Clear) on F — the red-black tree's Remove recycles nodes (a node with two
+// children takes over its predecessor's key and value), so a node pointer does not survive it.
+func staleNodeReads(g *GC) []string {
+	var bad []string
+	// calls in order, with the tree field they act on
+	type callInfo struct{ name, field string }
+	var calls []callInfo
+	fieldOfRecv := func(t *Term) string {
+		f := ""
+		t.any(func(x *Term) bool {
+			if x.Op == "fa" && len(x.Args) == 1 && x.Args[0].String() == "p:0" && f == "" {
+				f = x.Leaf
+			}
+			return false
+		})
+		return f
+	}
+	for _, ef := range g.Effects {
+		if ef.Op == "do" || ef.Op == "stddo" || ef.Op == "dyn" || ef.Op == "invoke" {
+			nm, args, ok := effDo(ef)
+			ci := callInfo{}
+			if ok && len(args) >= 1 {
+				ci = callInfo{nm, fieldOfRecv(args[0])}
+			}
+			calls = append(calls, ci)
+		}
+	}
+	check := func(t *Term) bool {
+		if t.Op != "load" || len(t.Args) != 1 || t.Args[0].Op != "fa" || (t.Args[0].Leaf != "Value" && t.Args[0].Leaf != "Key") || len(t.Args[0].Args) != 1 {
+			return false
+		}
+		n := t.Args[0].Args[0]
+		if n.Op != "call" || !(strings.HasSuffix(n.Leaf, ").GetNode") || strings.HasSuffix(n.Leaf, ").lookup")) || len(n.Args) != 3 {
+			return false
+		}
+		m := verRe.FindStringSubmatch(t.Leaf)
+		if m == nil {
+			return false
+		}
+		k := atoiOr(m[1], 0) // calls before the read
+		tree := fieldOfRecv(n.Args[1])
+		// calls before the lookup itself (its epoch counts effects)
+		from := 0
+		if n.Args[0].Op == "@" && strings.HasPrefix(n.Args[0].Leaf, "e") {
+			ne := atoiOr(n.Args[0].Leaf[1:], 0)
+			for i, ef := range g.Effects {
+				if i >= ne {
+					break
+				}
+				if ef.Op == "do" || ef.Op == "stddo" || ef.Op == "dyn" || ef.Op == "invoke" {
+					from++
+				}
+			}
+		}
+		for i := from; i < k && i < len(calls); i++ {
+			if calls[i].field == tree && tree != "" && (calls[i].name == "Remove" || calls[i].name == "Put" || calls[i].name == "Clear") {
+				bad = append(bad, fmt.Sprintf("a node of %s obtained before %s(%s…) is read after it (the tree recycles nodes on removal): %s", tree, calls[i].name, tree, trunc(noEpoch(t), 120)))
+			}
+		}
+		return false
+	}
+	for _, ef := range g.Effects {
+		ef.any(check)
+	}
+	g.Exit.any(check)
+	return bad
 }
 
 // lookupParts: (container term, key term) of a lookup / Get call.
@@ -228,7 +316,39 @@ func ruleR15(c *Ctx) *RuleResult {
 				}
 			}
 		}
-		factsA = append(factsA, fmt.Sprintf("%d guarded Append, %d guarded Remove(IndexOf), %d Clear site(s) over %d methods", nApp, nRem, nClr, len(ms)))
+		// constructors: a new container starts with an empty table and an empty order list; members enter through the
+		// container's own insertion method only (a list pre-filled with the arguments keeps the duplicates the table drops)
+		ncons := 0
+		for _, fn := range p.Funcs {
+			if fn.Parent() != nil || fn.Blocks == nil || fn.Signature.Recv() != nil || fn.Pkg == nil || fn.Pkg.Pkg != ct.Obj().Pkg() || fn.Signature.Results().Len() != 1 || namedOf(fn.Signature.Results().At(0).Type()) != ct {
+				continue
+			}
+			gc := c.GC(fn)
+			if gc.Undecided != "" {
+				continue
+			}
+			ncons++
+			for _, g := range gc.GCs {
+				for _, ef := range g.Effects {
+					switch {
+					case isStore(ef) && ef.Args[0].Op == "fa" && ef.Args[0].Leaf == order && ef.Args[0].Args[0].Op == "new":
+						v := ef.Args[1]
+						empty := v.Op == "call" && len(v.Args) >= 1 && v.Args[len(v.Args)-1].String() == "#:nil"
+						if v.Op == "call" && len(v.Args) == 1 {
+							empty = true // New() without a variadic parameter
+						}
+						if !empty {
+							badW = append(badW, fmt.Sprintf("%s builds the order list with elements in it (%s): members must enter through the container's own insertion method, which keeps table and list in step", p.FuncKey(fn), trunc(noEpoch(v), 100)))
+						}
+					case ef.Op == "mapset" && hasField(ef.Args[0], table):
+						badW = append(badW, fmt.Sprintf("%s writes the table directly (members must enter through the container's own insertion method)", p.FuncKey(fn)))
+					case ef.Op == "do" && len(ef.Args) >= 1 && hasField(ef.Args[0], order):
+						badW = append(badW, fmt.Sprintf("%s calls %s on the order list directly", p.FuncKey(fn), ef.Leaf))
+					}
+				}
+			}
+		}
+		factsA = append(factsA, fmt.Sprintf("%d guarded Append, %d guarded Remove(IndexOf), %d Clear site(s) over %d methods, %d constructor(s)", nApp, nRem, nClr, len(ms), ncons))
 		put := func(rule, clause string, bad []string, facts string) {
 			if len(bad) > 0 {
 				r.add(Obligation{Key: rule + ":" + tk, Rule: rule, Clause: clause, Pos: pos, Status: Violated, Facts: strings.Join(dedup(bad), "\n")})
@@ -359,13 +479,18 @@ func ruleR16(c *Ctx) *RuleResult {
 						}
 					}
 				}
+				bad = append(bad, staleNodeReads(g)...)
 				if found == nil {
 					bad = append(bad, "a path of Remove does not test the forward lookup of the key")
 					continue
 				}
 				if !pol {
-					if len(g.Effects) != 0 {
-						bad = append(bad, "removing an absent key has effects: "+trunc(g.Effects[0].String(), 200))
+					for _, ef := range g.Effects {
+						// removing the key the path knows absent from the map it looked in is that map's no-op
+						if name, args, ok := effDo(ef); ok && name == "Remove" && len(args) == 2 && hasField(args[0], fwd) && args[1].String() == "p:1" {
+							continue
+						}
+						bad = append(bad, "removing an absent key has effects: "+trunc(ef.String(), 200))
 					}
 					continue
 				}
@@ -375,7 +500,7 @@ func ruleR16(c *Ctx) *RuleResult {
 					if name, args, ok := effDo(ef); ok && name == "Remove" && len(args) == 2 {
 						if hasField(args[0], fwd) && args[1].String() == "p:1" {
 							okF = true
-						} else if hasField(args[0], inv) && args[1].Op == "ext" && args[1].Leaf == "0" && noEpoch(args[1].Args[0]) == noEpoch(found) {
+						} else if hasField(args[0], inv) && lookedUpValue(args[1], found) {
 							okI = true
 						} else {
 							bad = append(bad, "unexpected removal "+trunc(ef.String(), 200))
@@ -424,7 +549,7 @@ func ruleR16(c *Ctx) *RuleResult {
 }
 
 func checkBidiPut(g *GC, fwd, inv string) []string {
-	var bad []string
+	bad := staleNodeReads(g)
 	var byKey, byVal *Term
 	polK, polV, seenK, seenV := false, false, false, false
 	for _, a := range g.Guards {
@@ -455,9 +580,9 @@ func checkBidiPut(g *GC, fwd, inv string) []string {
 		case "Remove":
 			lastRemoval = i
 			switch {
-			case len(args) == 2 && hasField(args[0], inv) && args[1].Op == "ext" && args[1].Leaf == "0" && noEpoch(args[1].Args[0]) == noEpoch(byKey):
+			case len(args) == 2 && hasField(args[0], inv) && lookedUpValue(args[1], byKey):
 				evK = true
-			case len(args) == 2 && hasField(args[0], fwd) && args[1].Op == "ext" && args[1].Leaf == "0" && noEpoch(args[1].Args[0]) == noEpoch(byVal):
+			case len(args) == 2 && hasField(args[0], fwd) && lookedUpValue(args[1], byVal):
 				evV = true
 			default:
 				bad = append(bad, "eviction with the wrong map or key: "+trunc(ef.String(), 220))
@@ -1297,6 +1422,9 @@ func ruleR19bSize(c *Ctx, r *RuleResult) {
 					if !provablyNonNeg(ef.Args[1], g) {
 						badS = append(badS, fmt.Sprintf("%s stores size := %s on the path %s — not provably non-negative", name, trunc(noEpoch(ef.Args[1]), 160), trunc(guardsString(g), 200)))
 					}
+					if why := ringSizeMismatch(ef.Args[1], g); why != "" {
+						badS = append(badS, name+": "+why)
+					}
 				}
 			}
 		}
@@ -1315,6 +1443,9 @@ func ruleR19bSize(c *Ctx, r *RuleResult) {
 			if !provablyNonNeg(g.Exit.Args[0], g) {
 				badS = append(badS, fmt.Sprintf("calculateSize returns %s on the path %s — not provably non-negative", trunc(noEpoch(g.Exit.Args[0]), 160), trunc(guardsString(g), 200)))
 			}
+			if why := ringSizeMismatch(g.Exit.Args[0], g); why != "" {
+				badS = append(badS, "calculateSize: "+why)
+			}
 		}
 	}
 	switch {
@@ -1325,4 +1456,128 @@ func ruleR19bSize(c *Ctx, r *RuleResult) {
 	default:
 		r.add(Obligation{Key: "R19b-size:" + tk, Rule: "R19b-size", Clause: clause, Pos: anchorPos, Status: Discharged, Facts: fmt.Sprintf("%d recomputed values, each provably >= 0", nval)})
 	}
+}
+
+// ringSizeMismatch: v is a size recomputed from the ring's indices on path g. When v is linear in (start, end, capacity) and
+// the path knows how end and start compare, the value must be the number of slots from start to end going forward:
+// end - start when start < end, end - start + capacity when end < start, capacity or 0 (by the full flag) when they are equal.
+// Returns "" when it is, or when this reading does not apply (no verdict).
+func ringSizeMismatch(v *Term, g *GC) string {
+	fieldOf := func(t *Term) string {
+		if t.Op == "load" && len(t.Args) == 1 && t.Args[0].Op == "fa" && len(t.Args[0].Args) == 1 && t.Args[0].Args[0].String() == "p:0" {
+			return t.Args[0].Leaf
+		}
+		return ""
+	}
+	okLin := true
+	var lf func(t *Term) lin
+	lf = func(t *Term) lin {
+		if k, ok := t.constInt(); ok {
+			return linConst(int(k))
+		}
+		switch fieldOf(t) {
+		case "start":
+			return linAtom("S")
+		case "end":
+			return linAtom("E")
+		case "maxSize":
+			return linAtom("M")
+		}
+		if (t.Op == "+" || t.Op == "-") && len(t.Args) == 2 {
+			sign := 1
+			if t.Op == "-" {
+				sign = -1
+			}
+			return lf(t.Args[0]).add(lf(t.Args[1]), sign)
+		}
+		okLin = false
+		return linAtom(noEpoch(t))
+	}
+	val := lf(v)
+	if !okLin {
+		return ""
+	}
+	// only guards about the very versions of start and end that the value reads count (an index may have been advanced
+	// and wrapped earlier on the path)
+	verOf := map[string]string{}
+	v.any(func(t *Term) bool {
+		if f := fieldOf(t); f == "start" || f == "end" {
+			verOf[f] = t.Leaf
+		}
+		return false
+	})
+	if verOf["start"] == "" || verOf["end"] == "" {
+		return ""
+	}
+	sameVer := func(t *Term) bool {
+		f := fieldOf(t)
+		return (f != "start" && f != "end") || t.Leaf == verOf[f]
+	}
+	lt, gt, le, ge, eq, ne := false, false, false, false, false, false // end ? start
+	full, notFull := false, false
+	for _, a := range g.Guards {
+		x := a
+		neg := false
+		if x.Op == "!" && len(x.Args) == 1 {
+			x, neg = x.Args[0], true
+		}
+		if fieldOf(x) == "full" {
+			if neg {
+				notFull = true
+			} else {
+				full = true
+			}
+			continue
+		}
+		if len(a.Args) != 2 {
+			continue
+		}
+		f0, f1 := fieldOf(a.Args[0]), fieldOf(a.Args[1])
+		if !sameVer(a.Args[0]) || !sameVer(a.Args[1]) {
+			continue
+		}
+		switch {
+		case a.Op == "<" && f0 == "end" && f1 == "start":
+			lt = true
+		case a.Op == "<" && f0 == "start" && f1 == "end":
+			gt = true
+		case a.Op == "<=" && f0 == "end" && f1 == "start":
+			le = true
+		case a.Op == "<=" && f0 == "start" && f1 == "end":
+			ge = true
+		case a.Op == "==" && ((f0 == "end" && f1 == "start") || (f0 == "start" && f1 == "end")):
+			eq = true
+		case a.Op == "!=" && ((f0 == "end" && f1 == "start") || (f0 == "start" && f1 == "end")):
+			ne = true
+		}
+	}
+	if ge && ne {
+		gt = true
+	}
+	if le && ne {
+		lt = true
+	}
+	if le && ge {
+		eq = true
+	}
+	E, S, M := linAtom("E"), linAtom("S"), linAtom("M")
+	var want []lin
+	switch {
+	case lt:
+		want = []lin{E.add(S, -1).add(M, 1)}
+	case gt:
+		want = []lin{E.add(S, -1)}
+	case eq && full:
+		want = []lin{M, E.add(S, -1).add(M, 1)}
+	case eq && notFull:
+		want = []lin{linConst(0), E.add(S, -1)}
+	default:
+		return ""
+	}
+	for _, w := range want {
+		if w.String() == val.String() {
+			return ""
+		}
+	}
+	return fmt.Sprintf("the size recomputed on the path %s is %s, but going forward from start to end there are %s slots", trunc(guardsString(g), 160), val.String(), want[0].String())
 }
